@@ -221,37 +221,54 @@ def check_overflow(ck, tu):
 
 
 def check_bool_total(ck, tu):
+    """BOOL-TOTAL: is_power_of_two_template is evaluated on its integer skeleton for the extreme and the small values of
+    each instantiated type: the result is (i > 0 and i has one bit set) and no signed subtraction / addition leaves the
+    type's range on the way (i - 1 for the minimum)"""
+    from engine import skel
+    RANGES = {"int": (-2 ** 31, 2 ** 31 - 1), "long": (-2 ** 63, 2 ** 63 - 1), "long long": (-2 ** 63, 2 ** 63 - 1), "short": (-2 ** 15, 2 ** 15 - 1),
+              "unsigned int": (0, 2 ** 32 - 1), "unsigned long": (0, 2 ** 64 - 1), "unsigned long long": (0, 2 ** 64 - 1)}
     for fn in tu.some(qname="tlx::is_power_of_two_template"):
         t = ptype(fn)
-        signed = not t.startswith("unsigned")
-        g = cfgm.CFG(fn)
-        subs = [x for x in fn.nodes() if match.binop(x, ("-",)) and ref_of(match.binop(x, ("-",))[1]) == fn.params[0]["did"] and strip_casts(x)["k"] == "BinaryOperator"]
-        okk = True
-        for s in subs:
-            guarded = False
-            for y in fn.nodes():
-                if y["k"] == "IfStmt":
-                    c = match.binop(kids(y)[0], ("<=", "<", "=="))
-                    if c and ref_of(c[1]) == fn.params[0]["did"] and const_int(c[2]) in (0, 1) and c[0] in ("<=", "<") and \
-                            any(z["k"] == "ReturnStmt" for z in ir.walk(kids(y)[1])) and g.dominates(g.pos_deep(kids(y)[0]), g.pos_deep(s)):
-                        guarded = True
-            if signed and not guarded:
-                okk = False
-                ck.violation("BOOL-TOTAL", fn.qname, t.replace(" ", "_"), "i - 1 is evaluated for every %s value: it overflows for the minimum, for which the predicate must simply be false" % t, fn.nloc(s))
-        # the test itself: !(i & (i - 1))
-        rets = [x for x in fn.nodes() if x["k"] == "ReturnStmt"]
-        form = False
-        for r in rets:
-            for y in ir.walk(r):
-                b = match.binop(y, ("&",))
-                if b and ref_of(b[1]) == fn.params[0]["did"]:
-                    bb = match.binop(b[2], ("-",))
-                    if bb and ref_of(bb[1]) == fn.params[0]["did"] and const_int(bb[2]) == 1:
-                        form = True
-        if not form:
-            ck.violation("BOOL-TOTAL", fn.qname, t.replace(" ", "_") + ":form", "is_power_of_two is not !(i & (i - 1)) for positive i", fn.loc)
-        elif okk:
-            ck.ok("BOOL-TOTAL", "is_power_of_two_template<%s>" % t, "non-positive values rejected before i & (i - 1)")
+        if t not in RANGES:
+            raise dtable.Undecidable("%s: integer type %s not modelled" % (fn.loc, t))
+        lo, hi = RANGES[t]
+        signed = lo < 0
+        bad = None
+        vals = sorted(set([lo, lo + 1, -8, -2, -1, 0, 1, 2, 3, 4, 5, 6, 7, 8, 12, 16, 2 ** 30, hi - 1, hi, (hi + 1) // 2]))
+        vals = [v for v in vals if lo <= v <= hi]
+        for v in vals:
+            over = []
+
+            def event(e, sk):
+                if e["k"] == "BinaryOperator" and e.get("op") in ("-", "+", "*") and signed:
+                    a_, b_ = sk.ev(kids(e)[0]), sk.ev(kids(e)[1])
+                    if isinstance(a_, int) and isinstance(b_, int):
+                        r_ = {"-": a_ - b_, "+": a_ + b_, "*": a_ * b_}[e["op"]]
+                        if not (lo <= r_ <= hi) and (e.get("ty") or t) in (t, "const " + t):
+                            over.append((e, a_, b_))
+                        return r_
+                if e["k"] == "BinaryOperator" and e.get("op") in ("-", "+") and not signed:
+                    a_, b_ = sk.ev(kids(e)[0]), sk.ev(kids(e)[1])
+                    if isinstance(a_, int) and isinstance(b_, int):
+                        return ({"-": a_ - b_, "+": a_ + b_}[e["op"]]) % (hi + 1)
+                return NotImplemented
+            sk = skel.Skel(fn, {fn.params[0]["did"]: v}, None, event)
+            try:
+                sk.run(kids(fn.body))
+                ret = None
+            except skel.Return as r_:
+                ret = r_.v
+            want = v > 0 and (v & (v - 1)) == 0
+            if over and bad is None:
+                e, a_, b_ = over[0]
+                bad = ("overflow", "%s is evaluated for i = %d (%s): signed overflow for the minimum, for which the predicate must simply be false"
+                       % (dtable.describe(e), v, t), e)
+            elif (ret is None or bool(ret) != want) and bad is None:
+                bad = ("form", "is_power_of_two(%d) [%s] yields %s, must be %s" % (v, t, ret, want), fn.body)
+        if bad:
+            ck.violation("BOOL-TOTAL", fn.qname, t.replace(" ", "_") + (":form" if bad[0] == "form" else ""), bad[1], fn.nloc(bad[2]))
+        else:
+            ck.ok("BOOL-TOTAL", "is_power_of_two_template<%s>" % t, "%d values incl. the type's minimum and maximum: result == (i > 0 and one bit set), no signed overflow on the way" % len(vals))
 
 
 # ---------------------------------------------------------------- Aggregate
